@@ -32,6 +32,8 @@ def run(tier):
         fams.append(("callable",) + gen_meta.binop_case(op, l, r, c, "str" if op in gen_meta.ARITH else "zero", rng.choice(gen_meta.PROTS), ck) + (None,))
     for o, c, ck in itertools.product(["tA", "uB", "str", "nstr", "plain"], ["A", "B", "AB-same"], ["table", "userdata", "number"]):
         fams.append(("callable",) + gen_meta.unm_case(o, c, "", ck) + (None,))
+    for ev in gen_meta.INHERIT_EVENTS:      # handlers are fetched raw: nothing is inherited through the metatable's own __index
+        fams.append(("inherit",) + gen_meta.inherit_case(ev) + (None,))
     for ev, hk in itertools.product(gen_meta.STR_EVENTS, ["function", "callable"]):
         fams.append(("strmeta",) + gen_meta.strmeta_case(ev, hk) + (None,))
     for _ in range(1500 if thorough else 250):
@@ -47,7 +49,7 @@ def run(tier):
     progs = lsem.number(fams)
     verd, cov, allv, allo, stats = lsem.run_families(
         PROP, tier, progs,
-        "operand pairs from {number, numeric string, string, plain table, tables with metatable A/A/B, userdata with metatable A/B, nil, boolean} x every arithmetic/concat/comparison operator x handler presence {none, A only, B only, both same handler, both different, both twin closures of one function literal} x handler kind {function, callable table, callable userdata, uncallable number} x handler result kind x __metatable {absent, string, false, true, decoy table of handlers}, sampled from %d combinations (operands both as constants/upvalues and as registers); <= fallback to not(b<a); unary minus; __index/__newindex chains of depth 1-4 through tables and functions with raw bypass; __call in call/tail/statement/for-in/host re-entry/pcall/nested position; tostring/__metatable/getmetatable/setmetatable; handlers of every event installed in the string metatable (the built-in meaning of strings comes first)" % nspace,
+        "operand pairs from {number, numeric string, string, plain table, tables with metatable A/A/B, userdata with metatable A/B, nil, boolean} x every arithmetic/concat/comparison operator x handler presence {none, A only, B only, both same handler, both different, both twin closures of one function literal} x handler kind {function, callable table, callable userdata, uncallable number} x handler result kind x __metatable {absent, string, false, true, decoy table of handlers}, sampled from %d combinations (operands both as constants/upvalues and as registers); <= fallback to not(b<a); unary minus; __index/__newindex chains of depth 1-4 through tables and functions with raw bypass; __call in call/tail/statement/for-in/host re-entry/pcall/nested position; tostring/__metatable/getmetatable/setmetatable; handlers of every event installed in the string metatable (the built-in meaning of strings comes first); events reachable only through the metatable's own __index chain (raw fetch: not inherited)" % nspace,
         [], t0, max_steps=20000, extra_cov={"binop_space": nspace}, nontrivial_min_emits=2)
     lsem.foot_pass(PROP, progs, verd, stats, cov)      # Frames stage 2 (specs/FramesStep.tla)
     rc = verd.finish()
